@@ -37,9 +37,26 @@ def patterned_256():
     )
 
 
+def bit_structured(maxbits):
+    """integers with regular bit structure (a 1-16 bit block repeated to any width, optionally disturbed in the low bits;
+    sparse and dense values): the inputs on which window / NAF / ladder and digit-conversion code differs from the textbook"""
+    def rep(p, q, m, delta):
+        q &= (1 << p) - 1
+        v = 0
+        for i in range(0, m, p):
+            v |= q << i
+        return max(0, (v & ((1 << m) - 1)) + delta)
+    repeated = st.builds(rep, st.integers(1, 16), st.integers(1, 0xffff), st.integers(2, maxbits), st.sampled_from([0, 0, 0, 1, -1, 2, 3]))
+    sparse = st.lists(st.integers(0, maxbits - 1), min_size=1, max_size=4).map(lambda bits: sum({1 << b for b in bits}))
+    dense = st.tuples(st.integers(8, maxbits), st.lists(st.integers(0, maxbits - 1), min_size=1, max_size=4)).map(
+        lambda t: ((1 << t[0]) - 1) & ~sum({1 << b for b in t[1]}))
+    return st.one_of(repeated, repeated, sparse, dense)
+
+
 def scalars(n=SECP_N):
     """private keys in [1, n-1]"""
-    return st.one_of(boundary_ints(1, n - 1), patterned_256().map(lambda v: v % (n - 1) + 1))
+    return st.one_of(boundary_ints(1, n - 1), patterned_256().map(lambda v: v % (n - 1) + 1),
+                     bit_structured(n.bit_length()).map(lambda v: v if 1 <= v < n else v % (n - 1) + 1))
 
 
 def hashes256():
